@@ -554,3 +554,323 @@ Proof.
     rewrite (TOPb d c (rbp bp o) (rp o) ts); auto using wf_thr_r; try lia; try (unfold fits; lia).
     rewrite Hcc. exact HL.
 Qed.
+
+Lemma ml_notin : forall a b, MLp a -> TBp a -> TBp b -> MLp (SNotIn a b).
+Proof.
+  intros a b MLa TBa TBb d c min p k R ts Hthr Hp Hpr Hn Hf Hfo HL.
+  pose proof (top_of b TBb) as TOPb.
+  cbn [printable] in Hpr. apply andb_prop in Hpr. destruct Hpr as [Hpa Hpb].
+  cbn [need] in Hn. unfold fits in *. cbn [needb] in Hf. cbn [lvl] in Hp.
+  cbn [raw spine desugar] in *.
+  rewrite <- app_assoc. cbn [app].
+  replace (k + S (S (if lvl a <? lp OIn then 0 else spine a)))
+    with (S (S k) + (if lvl a <? lp OIn then 0 else spine a)) by lia.
+  assert (Hfb : refusedL (rp OIn) ts = true /\ (lvl b <? rp OIn = false -> followL b ts = true)).
+  { destruct ts as [|t0 ts0]; [split; reflexivity|]. cbn [followL follow refusedL] in *.
+    apply andb_prop in Hfo. destruct Hfo as [H1 H2]. split; [exact H1|].
+    intros E. rewrite E in H2. exact H2. }
+  destruct Hfb as [Hrb Hfb].
+  eapply (left_op a (lp OIn) MLa TBa); eauto.
+  - lia.
+  - unfold fits. lia.
+  - intros E. apply Nat.ltb_ge in E. cbn [followL]. apply follow_left_not. exact E.
+  - rewrite loop_S. change (classify (TIdent (s2l "not"))) with LNot. cbv iota.
+    rewrite (thr_bin _ _ _ OIn Hthr).
+    assert (E : lvl_bin OIn <? p = false) by (apply Nat.ltb_ge; lia). rewrite E.
+    change (hd_kw (TIdent (s2l "in") :: wrap (rp OIn) (lvl b) (raw b) ++ ts)) with KIn. cbv iota.
+    rewrite loop_S. change (classify (TIdent (s2l "in"))) with (LOp OIn). cbv iota.
+    rewrite (thr_bin _ _ _ OIn Hthr), E.
+    change (bop_eqb OIn OIs) with false. change (bop_eqb OIn OPipe) with false.
+    cbn [andb]. cbv zeta. cbv iota.
+    rewrite (TOPb d c (rbp bp OIn) (rp OIn) ts); auto using wf_thr_r; try lia; try (unfold fits; lia).
+Qed.
+
+Lemma ml_tern : forall cnd t f, MLp t -> TBp t -> TBp cnd -> TBp f -> MLp (STern cnd t f).
+Proof.
+  intros cnd t f MLt TBt TBc TBf d c min p k R ts Hthr Hp Hpr Hn Hf Hfo HL.
+  cbn [printable] in Hpr. apply andb_prop in Hpr. destruct Hpr as [Hpr Hpf].
+  apply andb_prop in Hpr. destruct Hpr as [Hpc Hpt].
+  cbn [need] in Hn. unfold fits in *. cbn [needb] in Hf. cbn [lvl] in Hp. unfold lvl_tern in Hp.
+  assert (p = 0) by lia. subst p.
+  cbn [raw spine desugar] in *.
+  rewrite <- app_assoc. cbn [app]. rewrite <- app_assoc. cbn [app].
+  replace (k + S (if lvl t <? S lvl_tern then 0 else spine t))
+    with (S k + (if lvl t <? S lvl_tern then 0 else spine t)) by lia.
+  assert (Hfb : refusedL 0 ts = true /\ followL f ts = true).
+  { destruct ts as [|t0 ts0]; [split; reflexivity|]. cbn [followL follow refusedL] in *.
+    apply andb_prop in Hfo. exact Hfo. }
+  destruct Hfb as [Hrb Hfb].
+  (* the loop, once past the ternary, returns *)
+  assert (HR : R = (ETern (desugar cnd) (desugar t) (desugar f), ts)).
+  { destruct k as [|k']; [cbn in HL; discriminate|].
+    rewrite (loop_stop bp maxb _ c min 0 k' _ ts Hthr Hrb) in HL. congruence. }
+  eapply (left_op t (S lvl_tern) MLt TBt); eauto.
+  - lia.
+  - unfold fits. lia.
+  - intros E. apply Nat.ltb_ge in E. cbn [followL]. apply follow_left_if. exact E.
+  - rewrite loop_S. change (classify (TIdent (s2l "if"))) with LIf. cbv iota.
+    rewrite (thr_tern _ _ _ Hthr). change (lvl_tern <? 0) with false. cbv iota.
+    rewrite (TBc d c 0 0 (TIdent (s2l "else") :: raw f ++ ts)); try solve [side]; try lia; try (unfold fits; lia).
+    change (hd_kw (TIdent (s2l "else") :: raw f ++ ts)) with KElse. cbv iota. cbn [tl].
+    rewrite (TBf d c 0 0 ts); try solve [side]; try lia; try (unfold fits; lia).
+    rewrite HR. reflexivity.
+Qed.
+
+(* ------------------------------------------------------------------ keyword arguments *)
+Definition kwitem (p : str * sx) : list token := match p with (k, v) => TIdent k :: TAssign :: raw v end.
+Definition dkw (kw : list (str * sx)) : list (str * expr) :=
+  map (fun p : str * sx => match p with (k, v) => (k, desugar v) end) kw.
+Fixpoint kwtoks (first : bool) (kw : list (str * sx)) : list token :=
+  match kw with
+  | [] => []
+  | it :: r => (if first then [] else [TComma]) ++ kwitem it ++ kwtoks false r
+  end.
+
+Lemma sep_by_kwtoks : forall kw, sep_by TComma (map kwitem kw) = kwtoks true kw.
+Proof.
+  induction kw as [|it r IH]; [reflexivity|].
+  destruct r as [|y r'].
+  - cbn. rewrite app_nil_r. reflexivity.
+  - change (sep_by TComma (map kwitem (it :: y :: r')))
+      with (kwitem it ++ TComma :: sep_by TComma (map kwitem (y :: r'))).
+    rewrite IH. reflexivity.
+Qed.
+
+Lemma kwargs_loop_S : forall P k c acc ts,
+  kwargs_loop P (S k) c acc ts =
+    if hd_is ts TRParen then Some (acc, ts) else
+    let after_comma :=
+      match acc with
+      | [] => Some ts
+      | _ => if hd_is ts TComma then Some (tl ts) else None
+      end in
+    match after_comma with
+    | None => None
+    | Some ts1 =>
+      if hd_is ts1 TRParen then Some (acc, ts1) else
+      match ts1 with
+      | t1 :: t2 :: ts2 =>
+          match as_ident t1 with
+          | Some n =>
+              if tis t2 TAssign then
+                if kw_mem n acc then None else
+                match P c 0 ts2 with
+                | Some (v, ts3) => kwargs_loop P k c (acc ++ [(n, v)]) ts3
+                | None => None
+                end
+              else None
+          | None => None
+          end
+      | _ => None
+      end
+    end.
+Proof. reflexivity. Qed.
+
+Lemma closerL_kwtail : forall r ts, closerL (kwtoks false r ++ TRParen :: ts) = true.
+Proof. intros [|[n v] r] ts; reflexivity. Qed.
+
+Definition kwgood (d : nat) (c : nat * nat) (it : str * sx) : Prop :=
+  TBp (snd it) /\ printable (snd it) = true /\ need (snd it) <= d /\ fits (snd it) c.
+
+Lemma kwargs_ok : forall d c kw acc j ts,
+  Forall (kwgood d c) kw ->
+  NoDup (map fst acc ++ map fst kw) ->
+  kwargs_loop (PA d) (S (List.length kw) + j) c acc
+     (kwtoks (match acc with [] => true | _ => false end) kw ++ TRParen :: ts)
+  = Some (acc ++ dkw kw, TRParen :: ts).
+Proof.
+  intros d c kw. induction kw as [|[n v] r IH]; intros acc j ts HF HN.
+  - cbn [kwtoks app List.length plus]. rewrite kwargs_loop_S. hdis. cbn [dkw map]. rewrite app_nil_r. reflexivity.
+  - inversion HF as [|x l Hg HF']; subst. destruct Hg as (TB & Hp & Hn & Hfi). cbn [snd] in *.
+    assert (Hmem : kw_mem n acc = false).
+    { apply kw_mem_false. cbn [map fst] in HN. apply NoDup_remove_2 in HN.
+      intros Hin. apply HN. apply in_or_app. left. exact Hin. }
+    assert (HN' : NoDup (map fst (acc ++ [(n, desugar v)]) ++ map fst r)).
+    { rewrite map_app. cbn [map fst]. rewrite <- app_assoc. exact HN. }
+    assert (Hacc' : match acc ++ [(n, desugar v)] with [] => true | _ => false end = false).
+    { destruct acc; reflexivity. }
+    change (S (List.length ((n, v) :: r)) + j) with (S (S (List.length r) + j)).
+    rewrite kwargs_loop_S.
+    specialize (IH (acc ++ [(n, desugar v)]) j ts HF' HN'). rewrite Hacc' in IH.
+    destruct acc as [|a0 acc0].
+    + cbn [kwtoks kwitem app]. hdis. cbv zeta. hdis. cbn [as_ident].
+      change (kw_mem n []) with false. cbv iota.
+      rewrite <- app_assoc.
+      rewrite (TB d c 0 0 (kwtoks false r ++ TRParen :: ts)); try solve [side];
+        auto using closerL_refusedL, closerL_followL, closerL_kwtail.
+      all: try (rewrite IH; cbn [dkw map app]; reflexivity).
+    + cbn [kwtoks kwitem app]. hdis. cbv zeta. hdis. cbn [as_ident].
+      rewrite Hmem.
+      rewrite <- app_assoc.
+      rewrite (TB d c 0 0 (kwtoks false r ++ TRParen :: ts)); try solve [side];
+        auto using closerL_refusedL, closerL_followL, closerL_kwtail.
+      all: try (cbn [app] in IH; rewrite IH; cbn [dkw map app]; rewrite <- app_assoc; reflexivity).
+Qed.
+
+Lemma kwtoks_len : forall kw first, List.length kw <= List.length (kwtoks first kw).
+Proof.
+  induction kw as [|[n v] r IH]; intros first; cbn [kwtoks List.length]; [lia|].
+  rewrite !app_length. cbn [kwitem List.length]. specialize (IH false). lia.
+Qed.
+
+Lemma parse_kwargs_ok : forall d c kw ts,
+  Forall (kwgood d c) kw -> NoDup (map fst kw) ->
+  parse_kwargs (PA d) c (paren (sep_by TComma (map kwitem kw)) ++ ts) = Some (dkw kw, ts).
+Proof.
+  intros d c kw ts HF HN. unfold parse_kwargs, paren. cbn [app]. hdis.
+  rewrite sep_by_kwtoks. rewrite <- app_assoc. cbn [app].
+  pose proof (kwtoks_len kw true) as Hl.
+  set (L := List.length (TLParen :: kwtoks true kw ++ TRParen :: ts)).
+  assert (HL : S L = S (List.length kw) + (L - List.length kw)).
+  { subst L. cbn [List.length]. rewrite app_length. lia. }
+  rewrite HL.
+  rewrite (kwargs_ok d c kw [] (L - List.length kw) ts HF HN).
+  hdis. reflexivity.
+Qed.
+
+Definition kwpart (kw : list (str * sx)) : list token :=
+  match kw with [] => [] | _ => paren (sep_by TComma (map kwitem kw)) end.
+
+Lemma parse_named_ok : forall d c n kw ts,
+  Forall (kwgood d c) kw -> NoDup (map fst kw) ->
+  (kw = [] -> match ts with t :: _ => is_lparen t = false | [] => True end) ->
+  parse_named (PA d) c (TIdent n :: kwpart kw ++ ts) = Some (n, dkw kw, ts).
+Proof.
+  intros d c n kw ts HF HN Hnext. unfold parse_named. cbn [as_ident].
+  destruct kw as [|it r].
+  - cbn [kwpart app]. specialize (Hnext eq_refl).
+    destruct ts as [|t ts0]; [reflexivity|].
+    assert (hd_is (t :: ts0) TLParen = false) by (destruct t; cbn in *; try reflexivity; discriminate).
+    rewrite H. reflexivity.
+  - unfold kwpart. unfold paren at 1. cbn [app]. hdis. fold (paren (sep_by TComma (map kwitem (it :: r)))).
+    change (TLParen :: (sep_by TComma (map kwitem (it :: r)) ++ [TRParen]) ++ ts)
+      with (paren (sep_by TComma (map kwitem (it :: r))) ++ ts).
+    rewrite parse_kwargs_ok; auto.
+Qed.
+
+Lemma fold_max_le : forall (l : list nat) x, In x l -> x <= fold_right Nat.max 0 l.
+Proof. induction l as [|y l IH]; cbn; intros x H; [tauto|]. destruct H as [->|H]; [lia|]. specialize (IH x H). lia. Qed.
+
+Lemma kwgood_all : forall d c (kw : list (str * sx)),
+  (forall v, In v (map snd kw) -> TBp v) ->
+  forallb (fun p : str * sx => match p with (_, v) => printable v end) kw = true ->
+  fold_right Nat.max 0 (map (fun p : str * sx => match p with (_, v) => need v end) kw) <= d ->
+  fst c + fold_right Nat.max 0 (map (fun p : str * sx => match p with (_, v) => needb v end) kw) <= maxb ->
+  Forall (kwgood d c) kw.
+Proof.
+  intros d c kw. induction kw as [|[n v] r IH]; intros HTB Hp Hn Hb; constructor.
+  - cbn [forallb] in Hp. apply andb_prop in Hp. destruct Hp as [Hp _].
+    cbn [map fold_right] in Hn, Hb.
+    unfold kwgood, fits. cbn [snd]. repeat split; try lia; auto. apply HTB. cbn. auto.
+  - cbn [forallb] in Hp. apply andb_prop in Hp. destruct Hp as [_ Hp].
+    cbn [map fold_right] in Hn, Hb.
+    apply IH; auto; try lia. intros v' Hin. apply HTB. cbn. auto.
+Qed.
+
+Lemma raw_test : forall e n kw neg,
+  raw (STest e n kw neg) =
+  wrap (lp OIs) (lvl e) (raw e) ++ TIdent (s2l "is") :: (if neg then [TIdent (s2l "not")] else []) ++ TIdent n :: kwpart kw.
+Proof. reflexivity. Qed.
+Lemma raw_filter : forall e n kw,
+  raw (SFilter e n kw) = wrap (lp OPipe) (lvl e) (raw e) ++ TPipe :: TIdent n :: kwpart kw.
+Proof. reflexivity. Qed.
+Lemma raw_call : forall n kw,
+  raw (SCall n kw) = TIdent n :: paren (sep_by TComma (map kwitem kw)).
+Proof. reflexivity. Qed.
+Lemma desugar_test : forall e n kw neg,
+  desugar (STest e n kw neg) =
+  if neg then EUn UNot (ETest (desugar e) n (dkw kw)) else ETest (desugar e) n (dkw kw).
+Proof. intros. destruct neg; reflexivity. Qed.
+Lemma desugar_filter : forall e n kw, desugar (SFilter e n kw) = EFilter (desugar e) n (dkw kw).
+Proof. reflexivity. Qed.
+Lemma desugar_call : forall n kw, desugar (SCall n kw) = ECall n (dkw kw).
+Proof. reflexivity. Qed.
+
+Lemma next_not_lparen : forall (kw : list (str * sx)) ts,
+  (match ts with [] => true | t :: _ => match kw with [] => negb (is_lparen t) | _ => true end end) = true ->
+  kw = [] -> match ts with t :: _ => is_lparen t = false | [] => True end.
+Proof.
+  intros kw ts H E. subst kw. destruct ts as [|t ts0]; [exact I|].
+  destruct (is_lparen t); cbn in *; congruence.
+Qed.
+
+Lemma ml_test : forall e n kw neg, MLp e -> TBp e ->
+  (forall v, In v (map snd kw) -> TBp v) -> MLp (STest e n kw neg).
+Proof.
+  intros e n kw neg MLe TBe TBk d c min p k R ts Hthr Hp Hpr Hn Hf Hfo HL.
+  cbn [printable] in Hpr. repeat (apply andb_prop in Hpr; destruct Hpr as [Hpr ?]).
+  rename H into Hpk, H0 into Hnd, H1 into Hnn.
+  cbn [need] in Hn. unfold fits in *. cbn [needb] in Hf. cbn [lvl] in Hp.
+  rewrite raw_test. rewrite desugar_test in HL. cbn [spine].
+  rewrite <- app_assoc. cbn [app].
+  replace (k + S (if lvl e <? lp OIs then 0 else spine e)) with (S k + (if lvl e <? lp OIs then 0 else spine e)) by lia.
+  assert (HG : Forall (kwgood d c) kw).
+  { apply kwgood_all; auto; lia. }
+  assert (HND : NoDup (map fst kw)) by (apply nodup_names_NoDup; exact Hnd).
+  assert (Hnext : kw = [] -> match ts with t :: _ => is_lparen t = false | [] => True end).
+  { apply next_not_lparen. destruct ts; [reflexivity|]. exact Hfo. }
+  eapply (left_op e (lp OIs) MLe TBe); eauto.
+  - lia.
+  - unfold fits. lia.
+  - intros E. apply Nat.ltb_ge in E. cbn [followL]. apply (follow_left_bop OIs). exact E.
+  - rewrite loop_S. change (classify (TIdent (s2l "is"))) with (LOp OIs). cbv iota.
+    rewrite (thr_bin _ _ _ OIs Hthr).
+    assert (E : lvl_bin OIs <? p = false) by (apply Nat.ltb_ge; lia). rewrite E.
+    change (bop_eqb OIs OIs) with true. cbn [andb]. cbv zeta.
+    destruct neg.
+    + cbn [app]. change (hd_kw (TIdent (s2l "not") :: TIdent n :: kwpart kw ++ ts)) with KNot.
+      cbv iota. cbn [tl].
+      rewrite parse_named_ok; auto.
+    + cbn [app].
+      assert (Hk : (match hd_kw (TIdent n :: kwpart kw ++ ts) with KNot => true | _ => false end) = false).
+      { cbn [hd_kw as_ident]. unfold not_kw_not in Hnn. destruct (kw_of n); try reflexivity; discriminate. }
+      rewrite Hk. cbv iota.
+      rewrite parse_named_ok; auto.
+Qed.
+
+Lemma ml_filter : forall e n kw, MLp e -> TBp e ->
+  (forall v, In v (map snd kw) -> TBp v) -> MLp (SFilter e n kw).
+Proof.
+  intros e n kw MLe TBe TBk d c min p k R ts Hthr Hp Hpr Hn Hf Hfo HL.
+  cbn [printable] in Hpr. repeat (apply andb_prop in Hpr; destruct Hpr as [Hpr ?]).
+  rename H into Hpk, H0 into Hnd.
+  cbn [need] in Hn. unfold fits in *. cbn [needb] in Hf. cbn [lvl] in Hp.
+  rewrite raw_filter. rewrite desugar_filter in HL. cbn [spine].
+  rewrite <- app_assoc. cbn [app].
+  replace (k + S (if lvl e <? lp OPipe then 0 else spine e)) with (S k + (if lvl e <? lp OPipe then 0 else spine e)) by lia.
+  assert (HG : Forall (kwgood d c) kw).
+  { apply kwgood_all; auto; lia. }
+  assert (HND : NoDup (map fst kw)) by (apply nodup_names_NoDup; exact Hnd).
+  assert (Hnext : kw = [] -> match ts with t :: _ => is_lparen t = false | [] => True end).
+  { apply next_not_lparen. destruct ts; [reflexivity|]. exact Hfo. }
+  eapply (left_op e (lp OPipe) MLe TBe); eauto.
+  - lia.
+  - unfold fits. lia.
+  - intros E. apply Nat.ltb_ge in E. cbn [followL]. apply (follow_left_bop OPipe). exact E.
+  - rewrite loop_S. change (classify TPipe) with (LOp OPipe). cbv iota.
+    rewrite (thr_bin _ _ _ OPipe Hthr).
+    assert (E : lvl_bin OPipe <? p = false) by (apply Nat.ltb_ge; lia). rewrite E.
+    change (bop_eqb OPipe OIs) with false. change (bop_eqb OPipe OPipe) with true. cbn [andb]. cbv zeta. cbv iota.
+    rewrite parse_named_ok; auto.
+Qed.
+
+Lemma ml_call : forall n kw, (forall v, In v (map snd kw) -> TBp v) -> MLp (SCall n kw).
+Proof.
+  intros n kw TBk d c min p k R ts Hthr Hp Hpr Hn Hf Hfo HL.
+  cbn [printable] in Hpr. repeat (apply andb_prop in Hpr; destruct Hpr as [Hpr ?]).
+  rename H into Hpk, H0 into Hnd.
+  cbn [need] in Hn. unfold fits in *. cbn [needb] in Hf.
+  rewrite raw_call. rewrite desugar_call in HL. cbn [spine]. rewrite Nat.add_0_r.
+  assert (HG : Forall (kwgood d c) kw).
+  { apply kwgood_all; auto; lia. }
+  assert (HND : NoDup (map fst kw)) by (apply nodup_names_NoDup; exact Hnd).
+  unfold body_k. cbn [app]. unfold Pratt.prefix.
+  unfold plain in Hpr.
+  assert (Hpi : Pratt.parse_ident maxb (PA d) c n (paren (sep_by TComma (map kwitem kw)) ++ ts)
+                = Some (ECall n (dkw kw), ts)).
+  { unfold parse_ident. unfold paren at 1. cbn [app]. hdis.
+    change (TLParen :: (sep_by TComma (map kwitem kw) ++ [TRParen]) ++ ts)
+      with (paren (sep_by TComma (map kwitem kw)) ++ ts).
+    rewrite parse_kwargs_ok; auto. }
+  destruct (kw_of n); try discriminate. rewrite Hpi. exact HL.
+Qed.
